@@ -72,6 +72,10 @@ def run(repo, res):
         if isinstance(props, ast.Call) and unparse(props.func) == 'sorted' and props.args:
             arg = ex.expand(props.args[0])
             ok2, why = unique_iter(arg)
+        if not ok2 and isinstance(props, ast.Name):
+            props = ex.expand(props)
+        if ok2:
+            pass
         elif isinstance(props, ast.Call) and unparse(props.func) == 'list_packages':
             lp = repo.module_func(ASSIST, 'list_packages')
             last = lp.body[-1]
